@@ -74,6 +74,8 @@ func exampleSeeds(tier string) []gram.Seed {
 
 func allSeeds(tier string) []gram.Seed {
 	seeds := append(gram.Seeds(), exampleSeeds(tier)...)
+	// interpreted string literals with escapes at their end, start and middle
+	seeds = append(seeds, gram.Seed{Name: "escaped-quotes", Text: "a : 'a' ;\nS : a \"\\\"\" | \"\\\"x\" a | \"x\\\\\" S | \"\\\\\" | \"a\\\"b\" ;\n"})
 	if tier == "thorough" {
 		for i, h := range gram.HostileSeeds() {
 			if i%4 == 0 {
